@@ -431,5 +431,7 @@ def run(ctx) -> None:
     check_d6_d7(ctx)
     from rules.u4 import check_converted_then_guessed
     check_converted_then_guessed(ctx, 'D8', only_attrs={'layerthickness', 'gradient'})
+    from rules.helper_contract import run_shared
+    run_shared(ctx, None, 'D9', 5)
     ctx.undecided('Stehfest / Talbot Laplace inversions (models 1, 2)', 'the next()/max() layer search for arbitrary layouts', 'Ramey wellbore model numerics')
     ctx.assume('erf maps [0, inf) into [0, 1) and is increasing')
